@@ -504,6 +504,20 @@ fn exec<'a>(
                     };
                     let mut sl = pma.open_slice(hspec.method, pma::Hay::plain(&fin));
                     while sl.next().is_some() {}
+                    // a finished search may still be asked for its size hint (collecting into a
+                    // set does): whether that question can be answered must not depend on the
+                    // entry point
+                    let s_hint = std::panic::catch_unwind(std::panic::AssertUnwindSafe(|| sl.size_hint()));
+                    let i_hint = std::panic::catch_unwind(std::panic::AssertUnwindSafe(|| hs[handle].it.as_ref().unwrap().size_hint()));
+                    if s_hint.is_err() != i_hint.is_err() {
+                        viol!(
+                            "panic",
+                            "handle {handle} ({:?}): size_hint() after the end {} on the slice search and {} on the byte-iterator search",
+                            hspec.method,
+                            if s_hint.is_err() { "panics" } else { "answers" },
+                            if i_hint.is_err() { "panics" } else { "answers" }
+                        );
+                    }
                     let want = sl.next();
                     world.borrow_mut().log(10, (handle, r));
                     if r != want {
